@@ -23,6 +23,7 @@ def exec_io(c):
         arr = ((code + 0.5) / 255.0).astype(NP[c["sd"]])
     if C == 0:
         arr = arr[..., 0]
+    arr0 = arr.copy()
     tmp = tempfile.mkdtemp(prefix="verif_img_")
     try:
         fmt = c.get("fmt", "tif")
@@ -34,6 +35,8 @@ def exec_io(c):
                 if lib.vid(c) % 3 == 0:
                     kw["compression"] = False
                 save_tiff(arr, p, **kw)
+                if lib.vid(c) % 2:
+                    save_tiff(arr, p, **kw)          # exporting the same array again gives the same file
             elif fmt == "npy":
                 np.save(p, arr)
             else:
@@ -50,7 +53,8 @@ def exec_io(c):
         vals = [[[[int(v) for v in zz] for zz in yy] for yy in xx] for xx in full]
     else:
         vals = [[[[int(round(float(v) * 10000)) for v in zz] for zz in yy] for yy in xx] for xx in full]
-    return {"shape": [int(v) for v in full.shape], "vals": vals}
+    pure = int(arr.dtype == arr0.dtype and arr.shape == arr0.shape and np.array_equal(arr, arr0))      # saving does not touch the caller's array
+    return {"shape": [int(v) for v in full.shape], "vals": vals, "pure": pure}
 
 
 def exec_raster(c):
@@ -65,6 +69,7 @@ def exec_raster(c):
     res = [Fraction(a, b) for a, b in c["res"]]
     arg = float(res[0]) if res[0] == res[1] == res[2] and lib.vid(c) % 2 else [float(r) for r in res]
     tf = ToImageStack(arg)
+    snap = lib.snapshot(t)
     stack = tf(t)
     saved_ok = 1
     if lib.vid(c) % 4 == 0:
@@ -79,7 +84,8 @@ def exec_raster(c):
             saved_ok = int(back.shape == want.shape and np.array_equal(back, want))
         finally:
             shutil.rmtree(tmp, ignore_errors=True)
-    return {"shape": [int(v) for v in stack.shape], "vox": [[[int(v) for v in row] for row in fr] for fr in stack], "saved_ok": saved_ok}
+    return {"shape": [int(v) for v in stack.shape], "vox": [[[int(v) for v in row] for row in fr] for fr in stack], "saved_ok": saved_ok,
+            "pure": 1 - lib.changed(t, snap)}
 
 
 def execute(c):
